@@ -477,7 +477,7 @@ func (s *Sim) point(op Op) Decision {
 	d.Fired = fk
 	if fk != "" {
 		s.FaultsFired[fk]++
-		t.FaultsSeen++
+		t.root().FaultsSeen++ // a fault met by a goroutine the task started is the task's (its simulated process's)
 	}
 	if s.cfg.Observer != nil {
 		s.cfg.Observer(t, op, fk)
